@@ -149,9 +149,20 @@ WRONG = {
 }
 
 
+NARGS_ELEM = ["int", "str", "bool", "enum", "posint"]
+SUB_NAMES = ["fit", "test", "run"]
+SUB_KEYS = ["epochs", "opt.lr", "ckpt", "w", "opt.name", "n_1"]
+
+
+def nargs_default(rng, h, nargs):
+    d = gen_default(rng, h)
+    return {1: [d], 2: [d, d], "+": [d], "*": []}[nargs]
+
+
 def gen_spec(rng):
     n = rng.randint(2, 5)
     use_group = rng.random() < 0.6
+    with_sub = rng.random() < 0.15
     keys, folded = [], set()
     tries = 0
     while len(keys) < n and tries < 100:
@@ -170,10 +181,32 @@ def gen_spec(rng):
         keys.append(key)
     args = []
     for key in keys:
-        h = rng.choice(HINTS)
-        args.append({"key": key, "hint": h, "default": gen_default(rng, h)})
+        if rng.random() < 0.1:
+            h = rng.choice(NARGS_ELEM)
+            nargs = rng.choice([1, 1, 2] if with_sub else [1, 1, 2, "+", "*"])
+            args.append({"key": key, "hint": h, "nargs": nargs, "default": nargs_default(rng, h, nargs)})
+        else:
+            h = rng.choice(HINTS)
+            args.append({"key": key, "hint": h, "default": gen_default(rng, h)})
     prefix = rng.choice(["APP", "APP", "my-app", "C05x", "a.b", True, "X_", "app2"])
-    return {"prefix": prefix, "prog": "c05prog", "group": "g" if use_group else None, "args": args}
+    spec = {"prefix": prefix, "prog": "c05prog", "group": "g" if use_group else None, "args": args}
+    if with_sub:
+        choices = {}
+        for name in rng.sample(SUB_NAMES, 2):
+            sargs = []
+            for k in rng.sample(SUB_KEYS, rng.randint(1, 3)):
+                h = rng.choice(["int", "bool", "str", "optint", "listint", "enum", "lit", "posint"])
+                sargs.append({"key": k, "hint": h, "default": gen_default(rng, h)})
+            choices[name] = sargs
+        spec["sub"] = {"dest": rng.choice(["subcommand", "cmd"]), "choices": choices}
+    return spec
+
+
+def gen_arg_value(rng, a):
+    if a.get("nargs") is None:
+        return gen_value(rng, a["hint"])
+    n = {1: 1, 2: 2, "+": rng.choice([1, 1, 2, 3]), "*": rng.choice([0, 1, 2, 3])}[a["nargs"]]
+    return [gen_value(rng, a["hint"]) for _ in range(n)]
 
 
 def gen_case(rng):
@@ -181,50 +214,54 @@ def gen_case(rng):
     args = spec["args"]
     k = rng.randint(1, len(args)) if rng.random() < 0.95 else 0
     chosen = rng.sample(args, k)
-    settings = [[a["key"], gen_value(rng, a["hint"])] for a in chosen]
+    if spec.get("sub"):
+        name = rng.choice(sorted(spec["sub"]["choices"]))
+        sargs = [dict(a, key=name + "." + a["key"]) for a in spec["sub"]["choices"][name]]
+        chosen = chosen + rng.sample(sargs, rng.randint(0, len(sargs)))
+    settings = [[a["key"], gen_arg_value(rng, a)] for a in chosen]
+    if spec.get("sub"):
+        settings.insert(rng.randint(0, len(settings)), [spec["sub"]["dest"], name])
     kind = "valid"
+    plain = [i for i, a in enumerate(chosen) if a.get("nargs") is None]      # the special kinds are about single-valued arguments
     r = rng.random()
-    if r < 0.14 and settings:
+    if r < 0.14 and chosen:
         cand = [i for i, a in enumerate(chosen) if a["hint"] in WRONG]
         if cand:
             i = rng.choice(cand)
-            settings[i][1] = rng.choice(WRONG[chosen[i]["hint"]])
+            a = chosen[i]
+            j = [n for n, sv in enumerate(settings) if sv[0] == a["key"]][0]
+            if a.get("nargs") is None:
+                settings[j][1] = rng.choice(WRONG[a["hint"]])
+            else:
+                bad = [w for w in WRONG[a["hint"]] if not isinstance(w, (list, dict))]
+                settings[j][1] = list(settings[j][1][:-1]) + [rng.choice(bad)] if settings[j][1] else [rng.choice(bad)]
             kind = "wrong"
-    elif r < 0.22:
+    elif r < 0.22 and not spec.get("sub"):
         used = {a["key"] for a in args}
         groups = sorted({a["key"].rsplit(".", 1)[0] for a in args if "." in a["key"]})
         key = rng.choice(["zz", "unknown_k"] + [g + ".zz" for g in groups])
         if key not in used:
             settings.insert(rng.randint(0, len(settings)), [key, rng.choice([1, "s", True])])
             kind = "unknown"
-    elif r < 0.25 and settings:
-        cand = [i for i, a in enumerate(chosen) if a["hint"] in ("int", "bool", "listint", "dictint", "posint", "liststr", "tupint", "tupvar")]
+    elif r < 0.25 and plain and not spec.get("sub"):
+        cand = [i for i in plain if chosen[i]["hint"] in ("int", "bool", "listint", "dictint", "posint", "liststr", "tupint", "tupvar")]
         if cand:
             i = rng.choice(cand)
             settings[i][1] = None
             kind = "null-nonopt"
-    elif r < 0.29:
-        cand = [i for i, a in enumerate(chosen) if a["hint"] == "litint"]
+    elif r < 0.29 and not spec.get("sub"):
+        cand = [i for i in plain if chosen[i]["hint"] == "litint"]
         if cand:
             settings[rng.choice(cand)][1] = True
             kind = "litint-bool"
-    elif r < 0.32:
-        cand = [a for a in args if a["hint"] == "dictint" and a["default"] == {}]
+    elif r < 0.33 and not spec.get("sub"):
+        cand = [a for a in args if a["hint"] == "dictint" and a.get("nargs") is None and a["default"] == {}]
         if cand:
             a = rng.choice(cand)
-            settings = [s for s in settings if s[0] != a["key"]]
+            settings = [sv for sv in settings if sv[0] != a["key"]]
             settings.append([a["key"] + "." + rng.choice(["a", "k_2"]), rng.choice([1, 5, -2])])
             kind = "dict-item"
     return {"spec": spec, "settings": settings, "kind": kind}
-
-
-VALUE_POOL = {
-    "int": INT_POOL, "posint": [1, 2, 5, 10**12, 77], "bool": [True, False], "str": LOOKALIKE, "optint": [None] + INT_POOL[:5],
-    "listint": [[], [1], [-1, 2, 30], [10**20]], "liststr": [[], [""], ["1", "true", "null"], [" padded ", "a: b", "#x", "[1]"]],
-    "dictint": [{}, {"a": 1}, {"a": 1, "b c": -2}, {"1": 1, "true": 2, "null": 3}], "lit": LIT_MEMBERS, "enum": ["red", "blue", "green"],
-    "litint": [1, 2], "any": [None, True, False, 0, -3, 12, [1, 2], [], [True, None], {"a": 1}, {}],
-    "tupint": [[0, 1], [-5, 10**20]], "tupvar": [[], [1], [3, 2, 1]],
-}
 
 
 def exhaustive_single():
@@ -254,21 +291,52 @@ def tmpdir():
     return _TMP
 
 
+def add_args(parser, args, group=None):
+    grp = parser.add_argument_group("Group " + group) if group else None
+    for a in args:
+        d = a["default"]
+        if a.get("nargs") is not None:
+            d = [Color[x] for x in d] if a["hint"] == "enum" else list(d)
+        elif a["hint"] == "enum":
+            d = Color[d]
+        elif a["hint"] in ("tupint", "tupvar"):
+            d = tuple(d)
+        target = grp if grp is not None and a["key"].split(".")[0] == group else parser
+        if a.get("nargs") is not None:
+            target.add_argument("--" + a["key"], type=hint_type(a["hint"]), nargs=a["nargs"], default=d)
+        else:
+            target.add_argument("--" + a["key"], type=hint_type(a["hint"]), default=d)
+
+
 def build(spec, mode="yaml"):
     from jsonargparse import ArgumentParser
 
     p = ArgumentParser(prog=spec["prog"], exit_on_error=False, default_env=True, env_prefix=spec["prefix"], parser_mode=mode)
     p.add_argument("--cfg", action="config")
-    grp = p.add_argument_group("Group " + spec["group"]) if spec.get("group") else None
-    for a in spec["args"]:
-        d = a["default"]
-        if a["hint"] == "enum":
-            d = Color[d]
-        elif a["hint"] in ("tupint", "tupvar"):
-            d = tuple(d)
-        target = grp if grp is not None and a["key"].split(".")[0] == spec["group"] else p
-        target.add_argument("--" + a["key"], type=hint_type(a["hint"]), default=d)
+    add_args(p, spec["args"], spec.get("group"))
+    sub = spec.get("sub")
+    if sub:
+        sc = p.add_subcommands(dest=sub["dest"], required=True)
+        for name, sargs in sub["choices"].items():
+            sp = ArgumentParser(exit_on_error=False, parser_mode=mode)
+            add_args(sp, sargs)
+            sc.add_subcommand(name, sp)
     return p
+
+
+def all_args(spec):
+    """every argument with its full key (sub-command arguments prefixed by the sub-command name)"""
+    out = list(spec["args"])
+    for name, sargs in (spec.get("sub") or {}).get("choices", {}).items():
+        out.extend(dict(a, key=name + "." + a["key"]) for a in sargs)
+    return out
+
+
+def arg_of(spec, key):
+    for a in all_args(spec):
+        if a["key"] == key:
+            return a
+    return None
 
 
 def text_of(v):
@@ -306,8 +374,39 @@ def env_name(prefix, prog, key):
     return name.upper()
 
 
-def env_of(spec, settings):
-    return {env_name(spec["prefix"], spec["prog"], key): text_of(v) for key, v in settings}
+def env_of(spec, settings, bare=False):
+    out = {}
+    for key, v in settings:
+        a = arg_of(spec, key)
+        if a is not None and a.get("nargs") is not None and isinstance(v, list):
+            # a list-valued option: the JSON list, or (bare) the single item as it is
+            out[env_name(spec["prefix"], spec["prog"], key)] = text_of(v[0]) if bare and len(v) == 1 else json.dumps(v)
+        else:
+            out[env_name(spec["prefix"], spec["prog"], key)] = text_of(v)
+    return out
+
+
+def argv_of(case, eq):
+    """global options, then the sub-command name, then its options (spelled without the sub-command prefix)"""
+    spec, sub = case["spec"], case["spec"].get("sub")
+    top, below, chosen = [], [], None
+    for k, v in case["settings"]:
+        if sub and k == sub["dest"]:
+            chosen = v
+            continue
+        rel, target = k, top
+        if sub and k.split(".")[0] in sub["choices"]:
+            rel, target = k.split(".", 1)[1], below
+        a = arg_of(spec, k)
+        if a is not None and a.get("nargs") is not None and isinstance(v, list):
+            vals = [text_of(e) for e in v]
+            # argparse accepts '--k=v' only for exactly one value; several values follow the option as separate arguments
+            target.extend(["--%s=%s" % (rel, vals[0])] if eq and len(vals) == 1 else (["--" + rel] + vals))
+        elif eq:
+            target.append("--%s=%s" % (rel, text_of(v)))
+        else:
+            target.extend(["--" + rel, text_of(v)])
+    return top + ([chosen] if chosen is not None else []) + below
 
 
 def canon(x, drop=("cfg", "__path__")):
@@ -358,10 +457,12 @@ def outcome(fn):
 
 
 CHANNELS = ["argv_eq", "argv_sp", "cfg_str_nested", "cfg_str_dotted", "cfg_file", "parse_string", "parse_path", "obj_nested", "obj_dotted",
-            "env", "mode_json", "mode_jsonnet", "mode_omegaconf"]
+            "env", "mode_json", "mode_jsonnet", "mode_omegaconf",
+            # two more spellings of the environment channel: the `env` mapping of parse_env, and a list-valued option given one bare item
+            "parse_env", "env_bare"]
 MODEL_CHANNEL = {"argv_eq": "argv", "argv_sp": "argv", "cfg_str_nested": "cfgNested", "cfg_str_dotted": "cfgDotted", "cfg_file": "cfgNested",
                  "parse_string": "cfgNested", "parse_path": "cfgNested", "obj_nested": "objNested", "obj_dotted": "objDotted", "env": "env",
-                 "mode_json": "cfgNested", "mode_jsonnet": "cfgNested", "mode_omegaconf": "cfgNested"}
+                 "mode_json": "cfgNested", "mode_jsonnet": "cfgNested", "mode_omegaconf": "cfgNested", "parse_env": "env", "env_bare": "env"}
 _MODES = None
 _NEG_NUM = re.compile(r"^-\d+$|^-\d*\.\d+$")
 
@@ -415,7 +516,25 @@ def skip_reason(ch, case):
             t = text_of(v)
             if t.startswith("-") and not _NEG_NUM.match(t):
                 return "argparse tokenisation of a value starting with '-'"
-    if ch == "env":
+    if ch in ("argv_sp", "argv_eq"):
+        for k, v in settings:
+            a = arg_of(case["spec"], k)
+            if a is not None and a.get("nargs") is not None and isinstance(v, list):
+                if any(text_of(e).startswith("-") and not _NEG_NUM.match(text_of(e)) for e in v):
+                    return "argparse tokenisation of a value starting with '-'"
+            elif a is not None and a.get("nargs") is not None:
+                return "a list-valued option cannot be given a non-list on the command line"
+    if ch == "env_bare":
+        ok = False
+        for k, v in settings:
+            a = arg_of(case["spec"], k)
+            if a is not None and a.get("nargs") is not None:
+                if not (isinstance(v, list) and len(v) == 1):
+                    return "only for list-valued options given exactly one item"
+                ok = True
+        if not ok:
+            return "only for list-valued options given exactly one item"
+    if ch in ("env", "parse_env", "env_bare"):
         if case["kind"] in ("unknown", "dict-item"):
             return "an environment variable that names no argument is not a setting"
         for _, v in settings:
@@ -458,10 +577,10 @@ def run_channels(case, only=None):
             with open(path, "w") as f:
                 f.write(doc)
         if ch == "argv_eq":
-            argv = ["--%s=%s" % (k, text_of(v)) for k, v in settings]
+            argv = argv_of(case, True)
             out[ch] = outcome(lambda: build(spec).parse_args(argv))
         elif ch == "argv_sp":
-            argv = [t for k, v in settings for t in ("--" + k, text_of(v))]
+            argv = argv_of(case, False)
             out[ch] = outcome(lambda: build(spec).parse_args(argv))
         elif ch == "cfg_str_nested":
             out[ch] = outcome(lambda: build(spec).parse_args(["--cfg=" + doc]))
@@ -479,6 +598,11 @@ def run_channels(case, only=None):
             out[ch] = outcome(lambda: build(spec).parse_object(json.loads(json.dumps(dotted))))
         elif ch == "env":
             with mock.patch.dict(os.environ, env_of(spec, settings)):
+                out[ch] = outcome(lambda: build(spec).parse_args([]))
+        elif ch == "parse_env":
+            out[ch] = outcome(lambda: build(spec).parse_env(env_of(spec, settings)))
+        elif ch == "env_bare":
+            with mock.patch.dict(os.environ, env_of(spec, settings, bare=True)):
                 out[ch] = outcome(lambda: build(spec).parse_args([]))
         else:
             out[ch] = outcome(lambda: build(spec, ch[5:]).parse_string(doc))
@@ -510,13 +634,11 @@ def value_at(c, key):
 
 
 def hint_of(spec, key):
-    for a in spec["args"]:
-        if a["key"] == key:
-            return a["hint"]
-    return None
+    a = arg_of(spec, key)
+    return a["hint"] if a is not None else None
 
 
-TEXT_CH = {"argv_eq", "argv_sp", "env"}
+TEXT_CH = {"argv_eq", "argv_sp", "env", "parse_env", "env_bare"}
 DOTTED_MAP_CH = {"cfg_str_dotted", "obj_dotted"}
 
 
@@ -711,9 +833,14 @@ def sort_dict_items(w):
     return w
 
 
+def outside_model(case):
+    """parser features the Channels model does not have: list-valued options (nargs) and sub-commands"""
+    return bool(case["spec"].get("sub")) or any(a.get("nargs") is not None for a in case["spec"]["args"])
+
+
 def model_ok(case):
     """is the case inside the model's grammar (values; Enum by name), and valid or unknown-key?"""
-    if case["kind"] not in ("valid", "unknown") or clash_args(case):
+    if case["kind"] not in ("valid", "unknown") or clash_args(case) or outside_model(case):
         return False
     if not all(in_grammar(v) for _, v in case["settings"]):
         return False
@@ -869,7 +996,9 @@ def correspond_text(ctx: Ctx, rng, n):
             got["yaml_load"] = "raises " + type(ex).__name__
         for mode in modes:
             if mode == "jsonnet" and any(abs(i) > 2**53 for i in all_ints(unwire_val(mv["some"]))):
-                continue
+                continue    # jsonnet numbers are doubles (evaluator is an oracle)
+            if mode == "omegaconf" and "${" in t:
+                continue    # omegaconf interpolation (evaluator is an oracle)
             try:
                 with parser_context(load_value_mode=mode):
                     got["load_value[%s]" % mode] = canon_loaded(load_value(t, simple_types=True))
@@ -957,7 +1086,8 @@ def correspond_channels(ctx: Ctx, cases_outs):
     for case, outs in cases_outs:
         if not model_ok(case):
             why = "kind " + case["kind"] if case["kind"] not in ("valid", "unknown") else (
-                "clash-named argument, open finding" if clash_args(case) else "value outside the grammar")
+                "clash-named argument, open finding" if clash_args(case) else (
+                    "nargs / sub-commands: outside the model" if outside_model(case) else "value outside the grammar"))
             ctx.hist("model_routing", "oracle only (%s)" % why)
             continue
         ctx.hist("model_routing", "model and oracle")
